@@ -350,7 +350,7 @@ func (j *judge) judge(all []recSpec, proms []promised, frames [][]byte) {
 				}
 				where := fmt.Sprintf("frame %d %s/%d", fi, name, pt.Index)
 				n := j.judgePartition(where, pt.Records, all, q.idx[q.next:], q.seq, expCodec, codecSeen)
-				q.next += n
+				q.next = min(q.next+n, len(q.idx)) // more records than handed in were reported above
 				q.seq = int32((int64(q.seq) + int64(n)) % (1 << 31))
 			}
 		}
